@@ -851,6 +851,13 @@ class Intrinsics:
     # ------------------------------------------------------------ attributes
     def getattr(self, obj, attr, frame):
         ex = self.ex
+        if isinstance(obj, Tagged) and obj and obj[0] == "pyclass-of":
+            if attr in ("__name__", "__qualname__"):
+                self.use("type(x).__name__ (an unconstrained string; only used in messages)")
+                return ex.fresh("clsname", "str")
+            raise Unsupported(f"attribute {attr} of a class object")
+        if attr == "__class__" and isinstance(obj, (SAny, HList, HDict, HJoin, SStr, SMarkup, SInt, SBool, SReal)) or (attr == "__class__" and obj is None):
+            return Tagged("pyclass-of", obj)
         if isinstance(obj, HSpecList):
             if attr in obj.hooks:
                 return PyCallable(lambda ex_, a, k, _l=obj, _h=obj.hooks[attr]: _h(ex_, _l, a, k), f"{obj.name}.{attr}")
@@ -959,6 +966,17 @@ class Intrinsics:
                 if callable(rt) and not hasattr(rt, "fresh"):
                     return PyCallable(lambda ex_, a, k, _o=obj, _m=attr, _h=rt: _h(ex_, _o, _m, list(a), **({"kwargs": k} if getattr(_h, "wants_kwargs", False) else {})), attr)
                 return PyCallable(lambda ex_, a, k, _m=attr, _t=rt: (_t.fresh(ex_, f"{_m}_result") if _t is not None else None), attr)
+            if attr == "get" and ex.contract.obj_protocol == "mapping":
+                # Mapping.get(k, d=None): map_at(m, k) if map_has(m, k) else d  (same uninterpreted view as m[k])
+                def _get(ex_, a, k, _o=obj):
+                    self.use("m.get(k, d) on an opaque Mapping: map_at(m,k) if map_has(m,k) else d")
+                    kt, kk = ex_.lift(a[0])
+                    has = z3.Function(f"map_has_{kk}", ObjSort, ELEM_SORT[kk], BoolSort)(_o.t, kt)
+                    at = z3.Function(f"map_at_{kk}", ObjSort, ELEM_SORT[kk], ObjSort)(_o.t, kt)
+                    if ex_.decide(has):
+                        return SAny(at)
+                    return a[1] if len(a) > 1 else k.get("default")
+                return PyCallable(_get, "get")
             if attr in ("items", "keys", "values"):
                 self.use("Mapping.items()/keys()/values() of opaque data: an opaque iterable, empty iff the mapping is falsy")
                 return PyCallable(lambda ex_, a, k, _o=obj: Tagged("opaque-iter", _o), attr)
